@@ -61,7 +61,9 @@ Resp == /\ Ev("Resp")
                 [] R.op = "interrupt" ->
                      /\ intrs' = {IF i.e = p.e THEN [i EXCEPT !.rpos = l] ELSE i : i \in intrs}
                      /\ pend' = [pend EXCEPT ![t] = NoOp]
-                [] R.op = "yield" -> pend' = [pend EXCEPT ![t] = NoOp] /\ UNCHANGED intrs
+                [] R.op = "yield" ->      \* a yield that reports a stored reason (R.r) does not clear it: it counts as reported once
+                     /\ pend' = [pend EXCEPT ![t] = NoOp]
+                     /\ intrs' = {IF i.target = t /\ i.e = R.r /\ R.r # 0 THEN [i EXCEPT !.used = TRUE] ELSE i : i \in intrs}
 Quiesce == /\ Ev("Quiesce") /\ \A t \in T : pend[t].op = "none"
            /\ \A k \in 1..Len(R.sleeping) : R.sleeping[k] = 0
            /\ UNCHANGED <<pend, intrs>>
